@@ -21,6 +21,7 @@ def wrap(which, V, s):
 
 FULL = {"JSON", "BufferedJSON", "MemoryBufferedJSON"}
 D1_SMALL = [D1[0], D1[1], D1[3], D1[6]]  # leaf, null, {p}, [x]
+STR_SHAPES = [("str", "yz"), ("str-empty", "")]  # a str is a Sequence: the merge must not treat it as a list
 
 
 def kinds(ok: int, nk: int, wr: int, x: int, y: int, x2: int, y2: int, s1: int, s2: int) -> bool:
@@ -30,7 +31,7 @@ def kinds(ok: int, nk: int, wr: int, x: int, y: int, x2: int, y2: int, s1: int, 
     env = get_env().reset()
     fam, which = PARTS[hlib.PART % len(PARTS)]
     full = hlib.TIER == "thorough" or fam.name in FULL
-    shapes = D1 if full else D1_SMALL
+    shapes = (D1 + STR_SHAPES) if full else (D1_SMALL + STR_SHAPES[:1])
     so = pick(shapes, ok)
     sn = pick(shapes, nk)
     if so is None or sn is None or wr < 0 or wr > (1 if full else 0):
@@ -117,6 +118,61 @@ def reads(tk: int, rd: int, hs: int, i: int, x: int, y: int, x2: int, s1: int, s
     return finish(True, good or fail(lambda: f"{fam.cls(which).__name__}.{op.name} via {h} after rewrite {doc_old!r} -> {doc_new!r}: returned {plain(r_lib[1])!r}, fresh content gives {plain(r_ref[1])!r}"))
 
 
+RELS = ["second-object", "other-file", "child-of-second", "child-of-other"]
+
+
+def eqsync(rl: int, sd: int, on: int, tk: int, sc: int, x: int, y: int, x2: int, y2: int) -> bool:
+    """Comparison between two synced operands: BOTH must reflect their backends.
+    post: _
+    """
+    env = get_env().reset()
+    classes = read_classes()
+    fam, which = classes[hlib.PART % len(classes)]
+    rel = pick(RELS, rl)
+    side = pick(["other-right", "other-left"], sd)
+    opn = pick(["eq", "ne"], on)
+    tkind = pick(WHICH, tk)
+    scen = pick(["both-rewritten", "only-other-rewritten"], sc)
+    if None in (rel, side, opn, tkind, scen):
+        return finish(False, True)
+    other_res = "r" if rel in ("second-object", "child-of-second") else "r2"
+    if scen == "only-other-rewritten" and other_res == "r":
+        return finish(False, True)
+    T_old = {"p": x} if tkind == "dict" else [x, y]
+    T_new = {"p": x2} if tkind == "dict" else [x2, y2]
+    doc_old, doc_new = wrap(which, T_old, 5), wrap(which, T_new, 5)
+    fam.write(env, "r", doc_old)
+    if other_res == "r2":
+        fam.write(env, "r2", doc_old)
+    me = fam.make(env, which, "r")
+    other = fam.make(env, which, other_res)
+    me()
+    other()
+    pos = "a" if which == "dict" else 0
+    mine, theirs = me, other
+    if rel.startswith("child"):
+        mine, theirs = me[pos], other[pos]
+    # outside writer
+    fam.write(env, other_res, doc_new)
+    if scen == "both-rewritten":
+        fam.write(env, "r", doc_new)
+        want_eq = True
+    else:
+        want_eq = eq_plain(T_old, T_new)
+    a, b = (mine, theirs) if side == "other-right" else (theirs, mine)
+    try:
+        got = (a == b) if opn == "eq" else (a != b)
+    except hlib.Crash:
+        raise
+    except Exception as e:
+        return finish(True, fail(lambda: f"{fam.cls(which).__name__} {rel} {side} {opn}: raised {e!r}"))
+    want = want_eq if opn == "eq" else (not want_eq)
+    case(fam.cls(which).__name__, rel, side, opn, tkind, scen)
+    if bool(got) != bool(want):
+        return finish(True, fail(lambda: f"{fam.cls(which).__name__}: both operands loaded {doc_old!r}; then an outside writer ({scen}) left mine at {fam.read(env, 'r')!r} and the other [{rel}] at {fam.read(env, other_res)!r}; {side} {opn} gives {got!r}, fresh contents give {want!r}"))
+    return finish(True, True)
+
+
 ALL_TOKENS = ["A.read", "A.write", "Ac.write", "out.same", "out.other", "B.write", "Ac.read", "B.reset-same"]
 
 
@@ -200,11 +256,13 @@ def plan(tier):
         return [
             {"fn": "kinds", "nparts": len(PARTS), "timeout": 300},
             {"fn": "reads", "nparts": 8, "timeout": 300},
+            {"fn": "eqsync", "nparts": 8, "timeout": 300},
             {"fn": "hist", "nparts": 4 * 6, "timeout": 300},
         ]
     return [
         {"fn": "kinds", "nparts": len(PARTS), "timeout": 1500},
         {"fn": "reads", "nparts": len(PARTS), "timeout": 1500},
+        {"fn": "eqsync", "nparts": len(PARTS), "timeout": 1500},
         {"fn": "hist", "nparts": len(PARTS) * len(ALL_TOKENS), "timeout": 1500},
     ]
 
@@ -218,6 +276,12 @@ def smoke(tier):
     for part in range(8):
         for rd in range(18):
             out.append(("reads", (part % 2, rd, rd % 2, 0, 1, 2, 3, 5, 6), part, 8))
+    ne = 8 if tier == "quick" else len(PARTS)
+    for part in range(ne):
+        for rl in range(4):
+            for sd in range(2):
+                for on in range(2):
+                    out.append(("eqsync", (rl, sd, on, part % 2, (rl + sd) % 2, 1, 2, 3, 4), part, ne))
     out.append(("hist", (0, 2, 4, 0, 1, 2, 3, 9), 0, 24))
     out.append(("hist", (1, 3, 5, 1, 1, 2, 3, 9), 13, 24))
     return out
